@@ -168,11 +168,11 @@ func c02Judge(k c02Case) *vlib.Failure {
 	if _, err := cors.NewMiddleware(k.Cfg.Config()); err != nil {
 		return nil // not an accepted configuration: outside the property's domain
 	}
-	m, err := buildVia(k.Route, k.Cfg, k.Debug, c02Warm(k.WarmOrigin)...)
+	bm, err := buildViaH(k.Route, k.Cfg, k.Debug, c02Warm(k.WarmOrigin)...)
 	if err != nil {
 		return vlib.Failf("configuration accepted by NewMiddleware but not through route %q: %v", routeNames[k.Route], err)
 	}
-	h := m.Wrap(http.HandlerFunc(func(http.ResponseWriter, *http.Request) {}))
+	h := bm.wrap(http.HandlerFunc(func(http.ResponseWriter, *http.Request) {}))
 	got, why := c02Browse(h, k.Intent, k.Perturb)
 	want := ref.Permits(k.Cfg.Policy(), k.Intent)
 	if got != want {
@@ -198,7 +198,7 @@ func TestC02Replay(t *testing.T) {
 	m, err := cors.NewMiddleware(%s)
 	if err != nil { t.Fatal(err) }
 	m.SetDebug(%t)
-	h := m.Wrap(http.HandlerFunc(func(http.ResponseWriter, *http.Request) {}))
+	h := wrap(m, http.HandlerFunc(func(http.ResponseWriter, *http.Request) {}))
 	for _, r := range []struct{ method string; hdr http.Header }{{%q, %#v}, {%q, %#v}} {
 		req := httptest.NewRequest(r.method, "/", nil); req.Header = r.hdr
 		rec := httptest.NewRecorder(); h.ServeHTTP(rec, req)
@@ -351,15 +351,21 @@ func checkC02(c *vlib.Ctx) (string, string) {
 			c.Transitions.Add(1)
 			return
 		}
+		if i%2 == 1 {
+			lit = minimalFlags(lit)
+		}
 		route := int(i % nRoutes)
-		m, err := buildVia(route, lit, false)
-		if err != nil {
-			ck.Report(c02Case{Cfg: lit, Route: route}, vlib.Failf("configuration accepted by NewMiddleware but not through route %q: %v", routeNames[route], err))
-			return
+		var hs [2]http.Handler
+		for d := 0; d < 2; d++ {
+			bm, err := buildViaH(route, lit, d == 1)
+			if err != nil {
+				ck.Report(c02Case{Cfg: lit, Route: route, Debug: d == 1}, vlib.Failf("configuration accepted by NewMiddleware but not through route %q: %v", routeNames[route], err))
+				return
+			}
+			hs[d] = bm.wrap(http.HandlerFunc(func(http.ResponseWriter, *http.Request) {}))
 		}
 		c.States.Add(1)
 		pol := lit.Policy()
-		h := m.Wrap(http.HandlerFunc(func(http.ResponseWriter, *http.Request) {}))
 		ins := intentsFor(ocOf[i])
 		rec := vlib.NewRec()
 		var evals, nontrivial int64
@@ -369,7 +375,10 @@ func checkC02(c *vlib.Ctx) (string, string) {
 				nontrivial++
 			}
 			for _, dbg := range []bool{false, true} {
-				m.SetDebug(dbg)
+				h := hs[0]
+				if dbg {
+					h = hs[1]
+				}
 				for _, pt := range perturbs {
 					if pt != 0 && (len(in.Headers) == 0) {
 						continue
